@@ -400,17 +400,6 @@ Definition do_expire p s ts (t : ty) k dur : store * reply :=
 Definition do_persist p s ts (t : ty) k : store * reply :=
   match t with TK => kv_set_expire p s ts k (Some 0) | _ => coll_set_expire p s ts t k (Some 0) end.
 
-(* clear commands (HClear/hDeleteAll, sDelete, zRemAll, lDelete): under wait_compact only the meta is deleted;
-   under local deletion the elements too. Nothing happens on a collection that does not exist or is expired. *)
-Definition coll_clear (p : policy) (s : store) (ts : Z) (t : ty) (k : bytes) : store * reply :=
-  let del (h : hdr) := match p with Compact => meta_del s t k | Local => el_del_gen (meta_del s t k) t k (h_ver h) end in
-  match coll_header p s ts t k with
-  | (h, ud, ex) =>
-      if not_exist_or_expired ud ex then (s, RInt 0)
-      else let n := match t with TL => snd (list_meta_of ud) | _ => size_of ud end in
-           if n =? 0 then (s, RInt 0) else (del h, RInt 1)
-  end.
-
 (* ---------- hash ---------- *)
 Definition do_hset p s ts k f v (nx : bool) : store * reply :=
   match coll_prepare p s ts TH k with
@@ -556,6 +545,55 @@ Definition do_zremrangebyscore p s ts k lo hi : store * reply :=
       zrem_entries s k h ud (filter (fun x => (lo <=? fst x) && (fst x <=? hi)) (zidx s k (h_ver h)))
   end.
 
+(* zRemAll on a live sorted set of size > 0: the meta only when the generation number is below ts, otherwise
+   zRemRangeBytes over the whole score index.  Returns the number the Go function returns. *)
+Definition zrem_all (p : policy) (s : store) (ts : Z) (k : bytes) (h : hdr) (ud : option (Z * Z)) : store * Z :=
+  match p with
+  | Local => (el_del_gen (meta_del s TZ k) TZ k (h_ver h), size_of ud)
+  | Compact =>
+      if h_ver h <? ts then (meta_del s TZ k, size_of ud)
+      else match zrem_entries s k h ud (zidx s k (h_ver h)) with
+           | (s1, RInt n) => (s1, n)
+           | (s1, _) => (s1, 0)
+           end
+  end.
+
+(* lDelete on a live list of size > 0 *)
+Definition ldelete (p : policy) (s : store) (ts : Z) (k : bytes) (h : hdr) (ud : option (Z * Z)) : store :=
+  match p with
+  | Local => el_del_gen (meta_del s TL k) TL k (h_ver h)
+  | Compact =>
+      if h_ver h <? ts then meta_del s TL k else
+      match list_meta_of ud with
+      | (hd, tl, _) =>
+          let seqs := flat_map (fun e => match fst e with SI i => if (hd <=? i) && (i <=? tl) then [i] else [] | _ => [] end)
+                               (el_of s TL k (h_ver h)) in
+          fold_left (fun st i => el_del st TL k (h_ver h) (SI i)) seqs (meta_del s TL k)
+      end
+  end.
+
+(* clear commands (HClear/hDeleteAll, sDelete, zRemAll, lDelete).  Nothing happens on a collection that does not
+   exist or is expired.  Under wait_compact only the meta is deleted when the generation number is below ts (it is
+   never used again); a generation whose number is not below ts is removed physically, because a collection
+   re-created by an entry with the same timestamp gets the same number.  Under local deletion always physically. *)
+Definition coll_clear (p : policy) (s : store) (ts : Z) (t : ty) (k : bytes) : store * reply :=
+  match coll_header p s ts t k with
+  | (h, ud, ex) =>
+      if not_exist_or_expired ud ex then (s, RInt 0)
+      else let n := match t with TL => snd (list_meta_of ud) | _ => size_of ud end in
+           if n =? 0 then (s, RInt 0) else
+           match p with
+           | Local => (el_del_gen (meta_del s t k) t k (h_ver h), RInt 1)
+           | Compact =>
+               if h_ver h <? ts then (meta_del s t k, RInt 1) else
+               match t with
+               | TZ => let (s1, n) := zrem_all p s ts k h ud in (s1, RInt (if n >? 0 then 1 else 0))
+               | TL => (ldelete p s ts k h ud, RInt 1)
+               | _ => (el_del_gen (meta_del s t k) t k (h_ver h), RInt 1)
+               end
+           end
+  end.
+
 (* ---------- list ---------- *)
 Definition list_set_meta (s : store) (k : bytes) (h : hdr) (hd tl : Z) : option store :=   (* lSetMeta *)
   let size := tl - hd + 1 in
@@ -656,8 +694,7 @@ Definition do_ltrim p s ts k (start stop : Z) : store * reply :=
           let start := if start <? 0 then 0 else start in
           if (start >=? llen) || (start >? stop) then
             (* lDelete: the whole list *)
-            (if llen =? 0 then s
-             else match p with Compact => meta_del s TL k | Local => el_del_gen (meta_del s TL k) TL k (h_ver h) end, RNil)
+            (if llen =? 0 then s else ldelete p s ts k h ud, RNil)
           else
             let stop := if stop >=? llen then llen - 1 else stop in
             let s1 := fold_left (fun st i => el_del st TL k (h_ver h) (SI i)) (seq_range hd start) s in
@@ -700,7 +737,7 @@ Definition do_zremrangebyrank p s ts k (start stop : Z) : store * reply :=
       if total =? 0 then (s, RInt 0) else
       if (offset =? 0) && (count >=? total) then
         (if not_exist_or_expired ud ex then (s, RInt 0)
-         else (match p with Compact => meta_del s TZ k | Local => el_del_gen (meta_del s TZ k) TZ k (h_ver h) end, RInt total))
+         else let (s1, n) := zrem_all p s ts k h ud in (s1, RInt n))
       else if count >? max_batch_num then (s, RErr)
       else if offset <? 0 then (incr_size s TZ k h ud 0, RInt 0)
       else zrem_entries s k h ud (firstn (Z.to_nat count) (skipn (Z.to_nat offset) (zidx s k (h_ver h))))
